@@ -109,6 +109,20 @@ def gen_cases(ctx):
                                     a = a2
                         _fill_buffers(name, a, rng, fill=(kind, vi * 131 + (ln or 0) + len(name)))
                         cases.append((name, ad if r['has_addr'] else (0, 0, 0), a))
+        if name == 'bidib_send_accessory_para_set_macromap':
+            # the list must END with 0xFF: a terminator anywhere else does not make it valid
+            for ad in ADDRS:
+                for n in (1, 2, 3, 8, 16):
+                    for ffpos in sorted({0, n // 2, n - 2} & set(range(0, max(0, n - 1)))) + [None]:
+                        a = dict(base)
+                        a['size'] = n
+                        buf = bytearray(((i * 5 + 1) % 0xF0) + 1 for i in range(n))
+                        if ffpos is not None:
+                            buf[ffpos] = 0xFF
+                        if buf[-1] == 0xFF:
+                            buf[-1] = 0x01
+                        a['data'] = bytes(buf)
+                        cases.append((name, ad, a))
         if thorough:
             # pairs of scalars at boundary values
             B = [0, 1, 7, 8, 16, 17, 31, 32, 59, 60, 63, 64, 70, 71, 118, 119, 120, 121, 122, 127, 128, 151, 152, 191, 192, 223, 224, 250, 251, 254, 255]
